@@ -47,6 +47,19 @@ pub fn run(ctx: &mut Ctx) {
         if ctx.take().is_none() { continue }
         if let Ok(src) = std::fs::read_to_string(&p) { if pipeline::parse(&src).is_ok() { validate_source(ctx, "CORPUS", &src) } }
     }
+    ctx.stage("U-SCALE");
+    for (_name, prog) in super::super::universes::scale::programs(!ctx.quick()) { if ctx.take().is_some() { validate_source(ctx, "U-SCALE", &show(&prog)) } }
+    // scope programs: frame sizes and slot numbers of if/else + let combinations that U-SYN's size bound does not reach
+    let scope_n = if ctx.quick() { 5 } else { 6 };
+    let mut gs = super::c12::grammar();
+    gs.prepare(scope_n);
+    for n in 1..=scope_n {
+        ctx.stage(&format!("U-SCOPE(N={})", n));
+        for_each_owned(ctx, &gs, 1, n, n, |ctx, _s, seq| {
+            for (frame, prog) in super::c12::frames(&seq) { if frame != "top" && (n < scope_n || frame == "function") { validate_source(ctx, "U-SCOPE", &show(&prog)) } }
+        });
+        if ctx.capped { break }
+    }
     ctx.stage("U-PAIR(d=2) shapes");
     let ts = pair::templates(); let fs = pair::fillers();
     for t in &ts { for f in &fs {
